@@ -106,7 +106,7 @@ def observe(cfg, variant=0):
 
 
 def matches(spec_vals, dec):
-    return any(-8 <= v[2] <= 8 and dec[v[2] + 8] == [v[0], v[1]] for v in spec_vals)
+    return any([v[2], v[0], v[1]] in dec or (v[0] == 0 and [0, 0, 1] in dec) for v in spec_vals)
 
 
 def random_cfg(rng):
